@@ -89,6 +89,7 @@ fn gen(rng: &mut Rng, tier: Tier) -> Value {
         name: None,
         enforce: if rng.chance(1, 5) { rng.below(3) as u8 } else { 1 },
         plain_api: rng.chance(1, 2),
+        observe_before: false,
       };
       steps.push(Step::Mutate(op));
       if rng.chance(1, 12) {
